@@ -39,10 +39,11 @@ const (
 	mcMemCancel
 	mcMemRemove
 	mcMemCustodian
+	mcMemCustodianSame // a different update transaction announcing the SAME custodian account
 	mcMemKinds
 )
 
-var mcMemKindNames = []string{"pledge", "accept", "cancel", "remove-oldest", "custodian-update"}
+var mcMemKindNames = []string{"pledge", "accept", "cancel", "remove-oldest", "custodian-update", "custodian-update-same-account"}
 
 const (
 	mcMemSecond = uint64(time.Second)
@@ -97,7 +98,12 @@ type mcMemDriver struct {
 	lastConsensus crypto.Hash
 	custodian     common.Address // current custodian (private keys known)
 	custN         int
+	custNodes     []common.Address // per-node custodians of the current record (private keys known)
+	custShift     int              // payee rotation of same-account updates
 	fundTS        uint64
+	// LastCustodianIgnored: the last same-account update carried the timestamp of an
+	// existing custodian record, which the ledger keeps (the update is finalized, not recorded).
+	LastCustodianIgnored bool
 	// Validated counts transactions of the history that the real
 	// common.Validate accepted at their snapshot timestamp (informational).
 	Validated, NotValidated int
@@ -181,6 +187,7 @@ func newMCMemDriverNet(net *fixc.Net, dir string) (*mcMemDriver, error) {
 	d.Custs = append(d.Custs, mcMemCust{TS: d.Net.Epoch + 1, Tx: ctx.PayloadHash(), Custodian: d.Net.Genesis.Custodian.String(), Nodes: len(d.Net.Signers)})
 	d.lastConsensus = ctx.PayloadHash()
 	d.custodian = d.Net.Custodian
+	d.custNodes = append([]common.Address{}, d.Net.Custodians...)
 	d.fundTS = d.Net.Epoch + mcMemHour
 	return d, nil
 }
@@ -308,7 +315,7 @@ func (d *mcMemDriver) Enabled(kind int) bool {
 			}
 		}
 		return !pledging && n > config.KernelMinimumNodesCount
-	case mcMemCustodian:
+	case mcMemCustodian, mcMemCustodianSame:
 		return true
 	}
 	return false
@@ -323,6 +330,8 @@ func (d *mcMemDriver) Apply(kind int, ts uint64) error {
 	if !d.Enabled(kind) {
 		return fmt.Errorf("%s not enabled", mcMemKindNames[kind])
 	}
+	// the snapshots of consecutive events are on different genesis chains
+	d.Chain = 1 + len(d.Hist)%3
 	var tx *common.VersionedTransaction
 	var after func()
 	switch kind {
@@ -403,19 +412,32 @@ func (d *mcMemDriver) Apply(kind int, ts uint64) error {
 		after = func() {
 			d.addRec(mcMemRec{Who: candi.Who, State: common.NodeStateRemoved, TS: ts, Tx: tx.PayloadHash()})
 		}
-	case mcMemCustodian:
+	case mcMemCustodian, mcMemCustodianSame:
+		same := kind == mcMemCustodianSame
 		count := len(d.Net.Signers)
 		amount := common.NewInteger(100).Mul(count)
 		dep, err := d.fund(amount.String())
 		if err != nil {
 			return err
 		}
-		d.custN++
-		newCust := fixc.Addr(fmt.Sprintf("mem-custodian-%d", d.custN))
+		newCust := d.custodian
+		custNodes := d.custNodes
+		shift := d.custShift
+		if same {
+			// same account, same per-node custodians, payees rotated: a different transaction
+			shift++
+		} else {
+			d.custN++
+			newCust = fixc.Addr(fmt.Sprintf("mem-custodian-%d", d.custN))
+			custNodes = make([]common.Address, count)
+			for i := range custNodes {
+				custNodes[i] = fixc.Addr(fmt.Sprintf("mem-custodian-%d-node-%d", d.custN, i))
+			}
+		}
 		nodes := make([]*common.CustodianNode, count)
 		for i := 0; i < count; i++ {
-			cu := fixc.Addr(fmt.Sprintf("mem-custodian-%d-node-%d", d.custN, i))
-			pa := d.Net.Payees[i]
+			cu := custNodes[i]
+			pa := d.Net.Payees[(i+shift)%count]
 			si := d.Net.Signers[i]
 			cup, pap := fixc.Pub(cu), fixc.Pub(pa)
 			extra := common.EncodeCustodianNode(&cup, &pap, &si.PrivateSpendKey, &pa.PrivateSpendKey, &cu.PrivateSpendKey, d.Net.NetworkId)
@@ -438,9 +460,20 @@ func (d *mcMemDriver) Apply(kind int, ts uint64) error {
 		raw.References = []crypto.Hash{d.lastConsensus}
 		tx = d.signByFunder(raw)
 		after = func() {
+			d.LastCustodianIgnored = false
+			if same {
+				d.custShift = shift
+				for _, c := range d.Custs {
+					if c.TS == ts {
+						// the ledger keeps the record that is already stamped ts (same account)
+						d.LastCustodianIgnored = true
+						return
+					}
+				}
+			}
 			d.custodian = newCust
-			// a record at the timestamp of an existing record is refused or ignored by the
-			// ledger; Apply verifies below which of the two happened
+			d.custNodes = custNodes
+			// a different account at the timestamp of an existing record is refused by the ledger (panic)
 			d.Custs = append(d.Custs, mcMemCust{TS: ts, Tx: tx.PayloadHash(), Custodian: ncp.String(), Nodes: count})
 		}
 	default:
@@ -464,12 +497,6 @@ func (d *mcMemDriver) Apply(kind int, ts uint64) error {
 	after()
 	d.lastConsensus = tx.PayloadHash()
 	d.Hist = append(d.Hist, mcMemEvent{Kind: kind, TS: ts})
-	if kind == mcMemCustodian {
-		// same-timestamp custodian record: the ledger silently keeps the old one
-		if got, err := d.M.Store.ReadCustodian(ts); err != nil || got == nil || got.Transaction != tx.PayloadHash() {
-			return fmt.Errorf("custodian update at %d not recorded (%v)", ts, err)
-		}
-	}
 	return d.Reload()
 }
 
